@@ -67,8 +67,8 @@ def run(cx):
             "default containers in place or as a second instance / user-ordered re-ordering) expressed as lyd_new_* + lyd_free_tree; "
             "options 0 and no-state; non-trivial = distinct (schema, history)")
     rng = cx.sub_rng("schemas")
-    nsch = cx.n(110, 900)
-    per = cx.n(8, 30)
+    nsch = cx.n(300, 900)
+    per = cx.n(10, 30)
     schemas, hists = [], []
     for i in range(nsch):
         s = vg.gen_schema_x(rng, i, max_depth=rng.choice([2, 3, 3]), top_mand=0.1)
@@ -135,7 +135,7 @@ def when_family(cx):
     that switch the conditions on and off; every validation must accept, be idempotent and report an exact change set."""
     rng = cx.sub_rng("when")
     schemas, hists, expect = [], [], {}
-    for i in range(cx.n(24, 120)):
+    for i in range(cx.n(60, 200)):
         s, c, sel, sel2, guarded, blockers = when_schema(rng, i)
         if not guarded:
             continue
